@@ -57,6 +57,10 @@ def run(chk):
                 chk.ob("R10.6", rel, qual, f"a cached function ({txt}) does not read files or depend on mutable state",
                        not MEMO.reads_external_state(mod, fn), node=fn, fingerprint=f"cache:{qual}")
         chk.ob("R10.6", CR, "I/O modules", f"{n} caching decorators found on the crystal I/O path", True, nontrivial=False)
+    chk.rule("R10.10", "the unit-cell atoms written to POSCAR are the distinct sites of the cell: wrap before merge, periodic and distance-based coincidence, occupancy-conserving merge (= C01 R01.3, R01.4)", 4)
+    if chk.want("R10.10"):
+        from ..inherit import inherit
+        inherit(chk, "R10.10", "c01", ["R01.3", "R01.4"])
     chk.assume("numeric equality 'to the written precision' and parsing of arbitrary label strings are not decided")
     chk.assume("the SHELX writer does not carry occupancies (the format clause 'where the format carries them')")
     chk.assume("LATT/SYMM soundness is C02 (R02.3-R02.5); CIF text round trip is C15; symmetry-operation strings are C11 (R11.7)")
